@@ -41,8 +41,15 @@ Record item := { i_tag : Z; i_kind : kind; i_lo : Z; i_hi : Z; i_mult : mult; i_
 (* c_substream = false: the items are read from the enclosing stream right after the 8 header bytes; the
    length field is not used and nothing is checked after the last item (RequestMessage / ResponseMessage) *)
 (* c_minver: `if kmip_version < V: raise VersionNotSupported` at the top of read and write (0 = none) *)
+(* post-conditions evaluated on the fields of a structure after the walk (read) / before writing (write);
+   indices address the ACTIVE items of the class, so every check carries the version range it applies to *)
+Inductive pcheck :=
+| AtLeastOneOf (ixs : list nat)              (* some field among ixs is non-empty *)
+| RequiredIf (ix key : nat) (p : pval).      (* field ix is non-empty whenever field key holds exactly the primitive p *)
+Record post := { p_lo : Z; p_hi : Z; p_check : pcheck }.
+
 Record cls := { c_name : string; c_rd : list item; c_wr : list item; c_oversize_check : bool; c_substream : bool;
-                c_minver : Z }.
+                c_minver : Z; c_post_rd : list post; c_post_wr : list post }.
 
 (* a row of a tag table: tag, kind of the element, version range lo <= v < hi (enums.is_attribute) *)
 Definition trow := (Z * kind * Z * Z)%type.
@@ -79,6 +86,21 @@ Inductive value :=
 | VP (p : pval)
 | VS (fields : list (list value))
 | VT (tag : Z) (x : value).          (* element of an any-attribute item: the value remembers its tag *)
+
+Definition nonempty_at (fields : list (list value)) (i : nat) : bool :=
+  match nth_error fields i with Some (_ :: _) => true | _ => false end.
+
+Definition post_ok (v : Z) (fields : list (list value)) (q : post) : bool :=
+  if (p_lo q <=? v) && (v <? p_hi q) then
+    match p_check q with
+    | AtLeastOneOf ixs => existsb (nonempty_at fields) ixs
+    | RequiredIf ix key p =>
+        match nth_error fields key with
+        | Some [VP p'] => if pval_eqb p' p then nonempty_at fields ix else true
+        | _ => true
+        end
+    end
+  else true.
 
 (* ------------------------------------------------------------------ dispatch *)
 
@@ -218,6 +240,7 @@ Fixpoint wr (fuel : nat) (tag : Z) (k : kind) (x : value) {struct fuel} : option
           | None => None
           | Some k =>
               if v <? c_minver k then None else
+              if negb (forallb (post_ok v fields) (c_post_wr k)) then None else
               match wr_items (wr f) [] (filter (active v) (c_wr k)) fields with
               | None => None
               | Some body => with_hdr tag STRUCT_CODE (zlen body) body
@@ -268,7 +291,8 @@ Fixpoint wfv (fuel : nat) (k : kind) (x : value) {struct fuel} : bool :=
       | KStruct c, VS fields =>
           match find_cls E c with
           | None => false
-          | Some k => negb (v <? c_minver k) && wf_items E v (wfv f) [] (filter (active v) (c_wr k)) fields
+          | Some k => negb (v <? c_minver k) && forallb (post_ok v fields) (c_post_wr k)
+                      && wf_items E v (wfv f) [] (filter (active v) (c_wr k)) fields
           end
       | KTagged t, VT tg y =>
           match find_row E v t tg with
@@ -426,13 +450,15 @@ Fixpoint rd (fuel : nat) (tag : Z) (k : kind) (bs : bytes) {struct fuel} : optio
                     match rd_items E v (rd f) [] (filter (active v) (c_rd k)) sub with
                     | None => None
                     | Some (fields, leftover) =>
+                        if negb (forallb (post_ok v fields) (c_post_rd k)) then None else
                         if c_oversize_check k && negb (Nat.eqb (List.length leftover) 0) then None
                         else Some (VS fields, rest)
                     end
                   else
                     match rd_items E v (rd f) [] (filter (active v) (c_rd k)) r with
                     | None => None
-                    | Some (fields, rest) => Some (VS fields, rest)
+                    | Some (fields, rest) =>
+                        if negb (forallb (post_ok v fields) (c_post_rd k)) then None else Some (VS fields, rest)
                     end
               end
           end
@@ -485,6 +511,27 @@ Fixpoint items_eqb (a b : list item) : bool :=
   match a, b with
   | [], [] => true
   | x :: a', y :: b' => item_eqb x y && items_eqb a' b'
+  | _, _ => false
+  end.
+
+Fixpoint nats_eqb (a b : list nat) : bool :=
+  match a, b with
+  | [], [] => true
+  | x :: a', y :: b' => Nat.eqb x y && nats_eqb a' b'
+  | _, _ => false
+  end.
+Definition pcheck_eqb (a b : pcheck) : bool :=
+  match a, b with
+  | AtLeastOneOf x, AtLeastOneOf y => nats_eqb x y
+  | RequiredIf i k p, RequiredIf j l q => Nat.eqb i j && Nat.eqb k l && pval_eqb p q
+  | _, _ => false
+  end.
+Definition post_eqb (a b : post) : bool :=
+  (p_lo a =? p_lo b) && (p_hi a =? p_hi b) && pcheck_eqb (p_check a) (p_check b).
+Fixpoint posts_eqb (a b : list post) : bool :=
+  match a, b with
+  | [], [] => true
+  | x :: a', y :: b' => post_eqb x y && posts_eqb a' b'
   | _, _ => false
   end.
 
@@ -558,7 +605,8 @@ Definition cls_ok (E : env) (k : cls) : bool :=
   && forallb (item_ok E) (c_rd k)
   && forallb (fun v => tags_disjointb E (filter (active v) (c_rd k))) VERSIONS
   && (c_substream k || forallb (fun it => negb (peeks (i_mult it))) (c_rd k))
-  && tagged_lastb (c_rd k).
+  && tagged_lastb (c_rd k)
+  && posts_eqb (c_post_rd k) (c_post_wr k).
 
 Definition env_ok (E : env) : bool :=
   forallb (cls_ok E) (e_classes E)
